@@ -35,6 +35,8 @@ package didsubject
 //@   nullable metadata
 //@   ensures [from-local-storage-for-exactly-this-did] isNilIface(result.2) ==> isNilIface(ret(call (*SqlDIDDocumentManager).Latest #1).1) && same(arg(call (*SqlDIDDocumentManager).Latest #1, 1), id)
 //@        && arg(call NewDIDDocumentManager #1, 0) == r.DB
+//@   ensures [not-found-sends-the-chain-to-the-web-only-for-a-did-with-no-version-at-all] !isNilIface(result.2) && errors.Is(result.2, resolver.ErrNotFound)
+//@        ==> metadata == nil || metadata.ResolveTime == nil
 //@   ensures [deactivated-only-when-allowed] isNilIface(result.2) && ret(call resolver.IsDeactivated #1) == true ==> metadata != nil && metadata.AllowDeactivated && result.1 != nil && result.1.Deactivated
 
 // ---- C13 (guard structure only): one subject operation changes all its DID documents or none ----
